@@ -108,6 +108,16 @@ func (c *c06) famAliased() {
 		o2.ExpandedDoubleScalarMulBasepointVartime(a, ep, b)
 		c.op("reuse.ris.ExpandedRistrettoPoint(copy, SetRistrettoPoint, use both)", "-> %s %s", c06hr(&o1), c06hr(&o2))
 	}
+	// ConditionalSelect with the receiver as either argument, both choices (the results are plain values: p or q)
+	for ch := 0; ch < 2; ch++ {
+		x = cp(p)
+		x.ConditionalSelect(x, q, ch)
+		x2 := cp(p)
+		x2.ConditionalSelect(q, x2, ch)
+		x3 := cp(p)
+		x3.ConditionalSelect(x3, x3, ch)
+		c.op("alias.ed.ConditionalSelect(p,p,q / p,q,p / p,p,p)", "choice=%d -> %s %s %s", ch, c06he(x), c06he(x2), c06he(x3))
+	}
 	// ---- Ristretto ----
 	rp, rq := cr(c.ris()), c.ris()
 	y := cr(rp)
@@ -132,6 +142,17 @@ func (c *c06) famAliased() {
 		y = cr(rp)
 		ps[at] = y
 		c.op("alias.ris.MultiscalarMulVartime(receiver among points)", "n=%d at=%d -> %s", n, at, c06hr(y.MultiscalarMulVartime(ss, ps)))
+	}
+	for ch := 0; ch < 2; ch++ {
+		y1 := cr(rp)
+		y1.ConditionalSelect(y1, rq, ch)
+		y2 := cr(rp)
+		y2.ConditionalSelect(rq, y2, ch)
+		c.op("alias.ris.ConditionalSelect(p,p,q / p,q,p)", "choice=%d -> %s %s", ch, c06hr(y1), c06hr(y2))
+		z1, z2 := cs(a), cs(a)
+		z1.ConditionalSelect(z1, b, ch)
+		z2.ConditionalSelect(b, z2, ch)
+		c.op("alias.sc.ConditionalSelect(s,s,t / s,t,s)", "choice=%d -> %s %s", ch, c06hs(z1), c06hs(z2))
 	}
 	// ---- scalars ----
 	s1, s2 := c.sc(), c.sc()
